@@ -560,6 +560,12 @@ pub fn check_built_index<D: Distance>(
             st.flag("multi_tree");
         }
     }
+    // DotProduct: every build rewrites every leaf header (extra_dim, norm) from the current item set
+    if cfg.structure && metric == Metric::DotProduct && class_is_ordinary(isp.class) && !cfg.degenerate {
+        if let Some(idx) = idx.as_ref() {
+            check_dot_headers(idx, m)?;
+        }
+    }
     // the reader must open on a freshly built index
     let reader = match catch(|| Reader::<D>::open(rtxn, isp.index, db)) {
         Ok(Ok(r)) => r,
@@ -601,6 +607,39 @@ pub fn check_built_index<D: Distance>(
     }
     if cfg.degenerate {
         queries::check_degenerate_queries(metric, &reader, rtxn, isp, m, qseed, st)?;
+    }
+    Ok(())
+}
+
+/// After a successful DotProduct build every leaf header holds norm = (max ||v||)^2 and
+/// extra_dim = sqrt(norm - ||v||^2) (Appendix A: "rewritten by every build").
+fn check_dot_headers(idx: &IndexDump, m: &IndexModel) -> Result<(), Fail> {
+    let sq = |v: &[f32]| v.iter().map(|x| (*x as f64) * (*x as f64)).sum::<f64>();
+    let max_sq = m.items.values().map(|v| sq(v)).fold(0.0f64, f64::max);
+    if !(max_sq.is_finite()) || max_sq > 1e30 {
+        return Ok(());
+    }
+    for (id, (hdr, _)) in &idx.items {
+        if hdr.len() != 8 {
+            continue;
+        }
+        let extra = f32::from_ne_bytes(hdr[0..4].try_into().unwrap()) as f64;
+        let norm = f32::from_ne_bytes(hdr[4..8].try_into().unwrap()) as f64;
+        let Some(v) = m.items.get(id) else { continue };
+        let tol = 1e-3 * max_sq + 1e-30;
+        if (norm - max_sq).abs() > tol {
+            return violation(
+                "structure",
+                format!("DotProduct leaf {id}: header norm {norm:e} after a successful build, the squared maximum norm of the stored items is {max_sq:e}"),
+            );
+        }
+        let want = (max_sq - sq(v)).max(0.0);
+        if (extra * extra - want).abs() > 4.0 * tol {
+            return violation(
+                "structure",
+                format!("DotProduct leaf {id}: header extra_dim {extra:e} after a successful build, expected sqrt({want:e})"),
+            );
+        }
     }
     Ok(())
 }
